@@ -178,8 +178,14 @@ def conclude(cid, tier, seed, results, wall):
     }
     if inconclusive:
         evidence['coverage']['inconclusive_reasons'] = inconclusive
-    os.makedirs(os.path.join(VERIF, 'evidence'), exist_ok=True)
-    with open(os.path.join(VERIF, 'evidence', '%s.json' % cid), 'w') as stream:
+    # evidence/ only ever describes runs against /repo itself; runs against a scratch tree
+    # (VERIF_REPO, used by the self-validation) leave their record under .work/
+    repo = os.path.realpath(os.environ.get('VERIF_REPO', '/repo'))
+    evidence_dir = os.path.join(VERIF, 'evidence') if repo == '/repo' else os.path.join(
+        VERIF, '.work', 'evidence-scratch')
+    evidence['coverage']['tree_under_test'] = repo
+    os.makedirs(evidence_dir, exist_ok=True)
+    with open(os.path.join(evidence_dir, '%s.json' % cid), 'w') as stream:
         json.dump(evidence, stream, indent=1, sort_keys=True, default=repr)
         stream.write('\n')
     print('%s tier=%s seed=%d evaluations=%d distinct_nontrivial=%d wall=%.1fs' % (
